@@ -110,6 +110,6 @@ MANIFEST = dict(
          "fix proposed each (ip index probes atoms of other columns in the first column's filter; IPINRANGE prefix < 8 prunes "
          "every block; full-text index probes the literal of != < <= > >= as a phrase). A violation is filed under one of these "
          "causes only if the real readers keep every needed block once the atoms of that cause class are replaced by an atom "
-         "on the non-indexed column. Errors/panics of a reader are counted, not "
+         "the reader never probes. Errors/panics of a reader are counted, not "
          "reported. Quick has four key columns only with 1-atom trees and atom pairs; 4-atom trees are thorough only.",
 )
